@@ -37,6 +37,7 @@ import (
 	pd "github.com/tikv/pd/client"
 	"github.com/tikv/pd/client/clients/router"
 	"github.com/tikv/pd/client/opt"
+	"github.com/tikv/pd/client/pkg/caller"
 )
 
 type vM = map[string]interface{}
@@ -99,6 +100,9 @@ type vPD struct {
 	pd.Client
 	w *vWorld
 }
+
+// the region cache keeps pdClient.WithCallerComponent(...): hand out the wrapper itself, not the wrapped client
+func (p *vPD) WithCallerComponent(caller.Component) pd.Client { return p }
 
 func (w *vWorld) truthSnap() []vSnapRegion {
 	var out []vSnapRegion
@@ -290,9 +294,11 @@ func (w *vWorld) randRegion() *metapb.Region {
 }
 
 func (w *vWorld) topo() {
-	switch w.rnd.Intn(10) {
+	switch w.rnd.Intn(12) {
 	case 0, 1, 2:
 		w.split(2 + w.rnd.Intn(vN-1))
+	case 10, 11:
+		w.peerChange()
 	case 3, 4:
 		if bs := w.bounds(); len(bs) > 0 {
 			w.merge(bs[w.rnd.Intn(len(bs))])
@@ -310,30 +316,8 @@ func (w *vWorld) topo() {
 			w.cluster.ChangeLeader(r.Id, cands[w.rnd.Intn(len(cands))])
 			w.emit(vM{"ev": "topo", "kind": "leader", "at": w.kidx(r.StartKey)})
 		}
-	case 7: // remove a follower peer, or add one back on a store without a peer
-		r := w.randRegion()
-		_, leader := w.cluster.GetRegion(r.Id)
-		if len(r.Peers) >= 3 {
-			for _, p := range r.Peers {
-				if p.Id != leader {
-					w.cluster.RemovePeer(r.Id, p.Id)
-					w.emit(vM{"ev": "topo", "kind": "removepeer", "at": w.kidx(r.StartKey)})
-					break
-				}
-			}
-		} else {
-			has := map[uint64]bool{}
-			for _, p := range r.Peers {
-				has[p.StoreId] = true
-			}
-			for _, s := range w.stores {
-				if !has[s] {
-					w.cluster.AddPeer(r.Id, s, w.cluster.AllocID())
-					w.emit(vM{"ev": "topo", "kind": "addpeer", "at": w.kidx(r.StartKey)})
-					break
-				}
-			}
-		}
+	case 7:
+		w.peerChange()
 	case 8: // stop a store that leads nothing we cannot move... (at most one stopped at a time)
 		if len(w.stopped) == 0 {
 			s := w.stores[w.rnd.Intn(len(w.stores))]
@@ -345,6 +329,34 @@ func (w *vWorld) topo() {
 		}
 	case 9:
 		w.startAll()
+	}
+}
+
+// remove a follower peer, or add one back on a store without a peer (the region's conf version changes)
+func (w *vWorld) peerChange() { w.peerChangeOn(w.randRegion()) }
+
+func (w *vWorld) peerChangeOn(r *metapb.Region) {
+	_, leader := w.cluster.GetRegion(r.Id)
+	if len(r.Peers) >= 3 {
+		for _, p := range r.Peers {
+			if p.Id != leader {
+				w.cluster.RemovePeer(r.Id, p.Id)
+				w.emit(vM{"ev": "topo", "kind": "removepeer", "at": w.kidx(r.StartKey)})
+				break
+			}
+		}
+	} else {
+		has := map[uint64]bool{}
+		for _, p := range r.Peers {
+			has[p.StoreId] = true
+		}
+		for _, s := range w.stores {
+			if !has[s] {
+				w.cluster.AddPeer(r.Id, s, w.cluster.AllocID())
+				w.emit(vM{"ev": "topo", "kind": "addpeer", "at": w.kidx(r.StartKey)})
+				break
+			}
+		}
 	}
 }
 
@@ -562,10 +574,15 @@ func (w *vWorld) cacheOp() {
 		return
 	}
 	r := rs[w.rnd.Intn(len(rs))]
-	if w.rnd.Intn(2) == 0 {
+	switch w.rnd.Intn(3) {
+	case 0:
 		c.InvalidateCachedRegion(r.VerID())
 		w.emit(vM{"ev": "cacheop", "kind": "invalidate", "id": r.GetID(), "cache": w.cacheDump()})
-	} else {
+	case 1:
+		// what a failed send or a store slow-down does: the entry must be reloaded when it is next used
+		r.setSyncFlags(needReloadOnAccess)
+		w.emit(vM{"ev": "cacheop", "kind": "needreload", "id": r.GetID(), "cache": w.cacheDump()})
+	default:
 		atomic.StoreInt64(&r.ttl, 0)
 		w.emit(vM{"ev": "cacheop", "kind": "expire", "id": r.GetID(), "cache": w.cacheDump()})
 	}
@@ -574,7 +591,17 @@ func (w *vWorld) cacheOp() {
 // one request for key k, retried like rawkv.Client.sendReq does
 func (w *vWorld) send(k int, final bool) {
 	w.usedOld = false
-	bo := retry.NewBackofferWithVars(context.Background(), 20000, nil)
+	// calm: every store is up, the client knows it (its health-check loop has caught up), and PD answers freshly
+	calm := len(w.stopped) == 0 && w.stale == 0
+	for _, st := range w.cache.stores.filter(nil, func(*Store) bool { return true }) {
+		calm = calm && st.getLivenessState() == reachable
+	}
+	// under calm conditions a request needs a handful of attempts at most: a small budget turns wasted retries into a failure
+	budget := 20000
+	if calm || final {
+		budget = 600
+	}
+	bo := retry.NewBackofferWithVars(context.Background(), budget, nil)
 	sender := NewRegionRequestSender(w.cache, w.rpc, oracle.NoopReadTSValidator{})
 	w.rpc.misrouted = ""
 	n0 := atomic.LoadInt64(&w.rpc.attempts)
@@ -619,7 +646,7 @@ func (w *vWorld) send(k int, final bool) {
 		}
 	}
 	w.emit(vM{"ev": "send", "k": k, "ok": ok, "err": errs, "tries": tries, "rpcs": atomic.LoadInt64(&w.rpc.attempts) - n0, "addr": w.rpc.lastAddr, "leader": leader,
-		"leaderaddr": lstore, "final": final, "stale": w.usedOld, "rerrs": rerrs, "misrouted": w.rpc.misrouted, "cache": w.cacheDump(), "truth": w.truthDump()})
+		"leaderaddr": lstore, "final": final, "calm": calm, "stale": w.usedOld, "rerrs": rerrs, "misrouted": w.rpc.misrouted, "cache": w.cacheDump(), "truth": w.truthDump()})
 }
 
 func vNewWorld(rnd *rand.Rand, log *bufio.Writer) *vWorld {
@@ -671,12 +698,42 @@ func vWalk(log *bufio.Writer, seed int64, scn int, steps int) {
 	for i := 0; i < steps; i++ {
 		switch x := rnd.Intn(20); {
 		case x < 5:
-			w.topo()
-			if rnd.Intn(3) == 0 {
+			// PD may later answer from the state before this change (an older snapshot)
+			if rnd.Intn(2) == 0 {
 				w.snaps = append(w.snaps, w.truthSnap())
 			}
-		case x < 7:
+			w.topo()
+		case x < 6:
 			w.cacheOp()
+		case x < 7:
+			// a change to the very region a request is about to use: the entry is cached, the region then changes
+			// (peers, leader, split, merge with its neighbour), and the request follows at once
+			k := 1 + rnd.Intn(vN)
+			if _, err := w.cache.LocateKey(w.bo(), w.keys[k]); err == nil {
+				reg, _, _, _ := w.cluster.GetRegionByKey(w.keys[k])
+				meta, leader := w.cluster.GetRegion(reg.Id)
+				switch rnd.Intn(4) {
+				case 0:
+					w.peerChangeOn(meta)
+				case 1:
+					for _, p := range meta.Peers {
+						if p.Id != leader && !w.stopped[p.StoreId] {
+							w.cluster.ChangeLeader(meta.Id, p.Id)
+							w.emit(vM{"ev": "topo", "kind": "leader", "at": w.kidx(meta.StartKey)})
+							break
+						}
+					}
+				case 2:
+					if k >= 2 {
+						w.split(k)
+					}
+				default:
+					if len(meta.StartKey) > 0 {
+						w.merge(w.kidx(meta.StartKey))
+					}
+				}
+				w.send(k, false)
+			}
 		case x < 10:
 			w.send(1+rnd.Intn(vN), false)
 		default:
